@@ -295,14 +295,20 @@ def bHvcC (c : HevcConfig) : Box :=
     [0x80 + 33] ++ u16be 1 ++ u16be c.sps.length ++ c.sps ++
     [0x80 + 34] ++ u16be 1 ++ u16be c.pps.length ++ c.pps)
 
-def bAv1C (c : Av1Config) : Box :=
+def av1CRecord (c : Av1Config) : Bytes :=
   let byte1 := (c.seqProfile % 8) * 32 + c.seqLevelIdx % 32
   let byte2 := (c.seqTier % 2) * 128 + (if c.highBitdepth then 0x40 else 0) + (if c.twelveBit then 0x20 else 0) +
     (if c.monochrome then 0x10 else 0) + (if c.subX then 0x08 else 0) + (if c.subY then 0x04 else 0) + c.csp % 4
-  leaf "av1C" ([0x81, u8 byte1, u8 byte2, 0x00] ++ c.sequenceHeader)
+  [0x81, u8 byte1, u8 byte2, 0x00] ++ c.sequenceHeader
 
-def bVpcC (c : Vp9Config) : Box :=
-  leaf "vpcC" [1, u8 c.profile, u8 c.level, u8 c.bitDepth, u8 c.colorSpace, u8 c.transfer, u8 c.matrix, u8 c.fullRange]
+def bAv1C (c : Av1Config) : Box := leaf "av1C" (av1CRecord c)
+
+/-- the VPCodecConfigurationRecord after the FullBox header -/
+def vpcCRecord (c : Vp9Config) : Bytes :=
+  u32be 0x01000000 ++ [u8 c.profile, u8 c.level, u8 ((c.bitDepth % 16) * 16 + 2 + c.fullRange % 2),
+    u8 c.colorSpace, u8 c.transfer, u8 c.matrix] ++ u16be 0
+
+def bVpcC (c : Vp9Config) : Box := leaf "vpcC" (vpcCRecord c)
 
 /-- `build_avc1_box` & co. (the width/height `assert_invariant!`s are in `finalizePanics`) -/
 def bVideoEntry (width height : Nat) (vc : VideoConfig) : Box :=
@@ -498,7 +504,7 @@ def bMoov (width height : Nat) (vt : Tables) (audio : Option (AudioTrack × Tabl
 
 /-- panics raised while building the moov: zero-size sample in `build_stsz_box`,
     i64 overflow of `pts - dts`. (Width/height > 65535 are rejected by `finalize` itself.) -/
-def moovPanics (width height : Nat) (vs aus : List Sample) (hasAudio : Bool) : Bool :=
+def moovPanics (_width _height : Nat) (vs aus : List Sample) (hasAudio : Bool) : Bool :=
   vs.any (fun s => (ctsOf s.pts s.dts).isNone) ||
   (hasAudio && aus.any (fun s => (ctsOf s.pts s.dts).isNone)) ||
   vs.any (fun s => s.data.length = 0) || (hasAudio && aus.any (fun s => s.data.length = 0))
